@@ -25,10 +25,10 @@ type Op struct {
 	Tag   string `json:"tag,omitempty"`   // name of an async call
 	Async bool   `json:"async,omitempty"` // do not wait for the call to return
 
-	ID       string            `json:"id,omitempty"`       // request id class / agent identifier class
-	Body     string            `json:"body,omitempty"`     // literal body
-	Size     int               `json:"size,omitempty"`     // generated body of this size ...
-	Seed     int               `json:"seed,omitempty"`     // ... from this seed
+	ID       string            `json:"id,omitempty"`   // request id class / agent identifier class
+	Body     string            `json:"body,omitempty"` // literal body
+	Size     int               `json:"size,omitempty"` // generated body of this size ...
+	Seed     int               `json:"seed,omitempty"` // ... from this seed
 	ErrType  string            `json:"errType,omitempty"`
 	Headers  map[string]string `json:"headers,omitempty"`
 	Events   []string          `json:"events,omitempty"`
@@ -38,11 +38,11 @@ type Op struct {
 	Method   string            `json:"method,omitempty"`
 	Path     string            `json:"path,omitempty"`
 
-	Caller  int    `json:"caller,omitempty"`
-	Label   string `json:"label,omitempty"` // payload label (default p<k>)
-	Ctx     string `json:"ctx,omitempty"`
-	Trace   string `json:"trace,omitempty"`
-	BadCtx  bool   `json:"badCtx,omitempty"` // front-end mode: send a client context header that is not base64
+	Caller int    `json:"caller,omitempty"`
+	Label  string `json:"label,omitempty"` // payload label (default p<k>)
+	Ctx    string `json:"ctx,omitempty"`
+	Trace  string `json:"trace,omitempty"`
+	BadCtx bool   `json:"badCtx,omitempty"` // front-end mode: send a client context header that is not base64
 
 	// until
 	Actor string `json:"actor,omitempty"`
@@ -57,7 +57,7 @@ type Op struct {
 	Code   int    `json:"code,omitempty"`
 	Signal int    `json:"signal,omitempty"`
 	Reason string `json:"reason,omitempty"`
-	Gen    int    `json:"gen,omitempty"` // address the process of this generation (default: latest)
+	Gen    int    `json:"gen,omitempty"`   // address the process of this generation (default: latest)
 	Since  string `json:"since,omitempty"` // until: only events recorded after this mark
 	Point  string `json:"point,omitempty"` // hold / release: name of a pause point
 	Skip   int    `json:"skip,omitempty"`  // hold: let this many arrivals pass first
@@ -71,13 +71,13 @@ type Scenario struct {
 }
 
 type Outcome struct {
-	ID      string `json:"id"`
-	Status  string `json:"status"` // done | hang | error
-	Detail  string `json:"detail,omitempty"`
-	Events  int    `json:"events"`
-	WallMs  int64  `json:"wallMs"`
-	Trace   string `json:"trace"`
-	Leaked  int    `json:"leakedCalls"`
+	ID     string `json:"id"`
+	Status string `json:"status"` // done | hang | error
+	Detail string `json:"detail,omitempty"`
+	Events int    `json:"events"`
+	WallMs int64  `json:"wallMs"`
+	Trace  string `json:"trace"`
+	Leaked int    `json:"leakedCalls"`
 }
 
 type runner struct {
@@ -89,9 +89,9 @@ type runner struct {
 	// deadline): tag -> that limit in ms; they return within limit + exit grace (2 s) + slack
 	platTags map[string]int
 	tagOps   map[string]*Op // asynchronous API calls by tag
-	marks   map[string]int
-	ninv    int
-	opWait  time.Duration
+	marks    map[string]int
+	ninv     int
+	opWait   time.Duration
 }
 
 func (r *runner) proc(op *Op) *Proc {
